@@ -64,24 +64,26 @@ def reparse_if_needed(student_code=None, report=MAIN_REPORT):
         dict: Returns the Cait Report
     """
     cait = report[TOOL_NAME]
-    if student_code is not None:
-        if student_code in cait['cache']:
-            cait['ast'] = cait['cache'][student_code]
-            return cait
-        else:
-            student_ast = _parse_source(student_code, report=report)
-    else:
+    if student_code is None:
         student_code = report.submission.main_code
-        # Have we already parsed this code?
-        if student_code in cait['cache']:
-            cait['ast'] = cait['cache'][student_code]
-            return cait
+        steal_from_source = report[SOURCE_TOOL_NAME]['success']
+    else:
+        steal_from_source = False
+    # Have we already parsed this code? (Only successful parses are kept.)
+    if student_code in cait['cache']:
+        cait['ast'] = cait['cache'][student_code]
+        # The flags still describe whatever code was asked about last
+        cait['success'], cait['error'] = True, None
+        return cait
+    if steal_from_source:
         # Try to steal parse from Source module, if available
-        if report[SOURCE_TOOL_NAME]['success']:
-            student_ast = report[SOURCE_TOOL_NAME]['ast']
-        else:
-            student_ast = _parse_source(student_code, report=report)
-    cait['ast'] = cait['cache'][student_code] = CaitNode(student_ast, report=report)
+        student_ast = report[SOURCE_TOOL_NAME]['ast']
+        cait['success'], cait['error'] = True, None
+    else:
+        student_ast = _parse_source(student_code, report=report)
+    cait['ast'] = CaitNode(student_ast, report=report)
+    if cait['success']:
+        cait['cache'][student_code] = cait['ast']
     return cait
 
 
